@@ -12,4 +12,5 @@ CONSTANTS
   IfN = "eq0"
   Loop = "for"
   Delete = TRUE
+  NRead = "locked"
 INVARIANTS NoSpurious AtMostOncePerReport NoLost WakeInv NoLostWakeup Export
